@@ -15,6 +15,7 @@
      last of them leaves (C06 (d)). *)
 From AL Require Import Base Api Mutex RwLock RwApi RwWord RwInv RwLive.
 From AL.Tie Require Tie_Raw Tie_RwLock Tie_RwFutures Tie_Mutex.
+From AL.Sched Require RwSched.
 
 Theorem C12_writer_announced : forall ops : list rop, N.of_nat (length ops) < RLIVE_BOUND ->
   let x := rrun ops in quiescent x -> nU x = 0 -> nW x = 0 ->
@@ -62,7 +63,18 @@ Proof.
   - split; [reflexivity|]. split; [reflexivity|]. split; [|reflexivity]. intro Q. apply (Q 0%nat _ eq_refl). split; reflexivity.
 Qed.
 
+(* ---------- schedule half: every interleaving of atomic operations on the state word ---------- *)
+(* On the machine of C02_excl_sched (any number of threads, every schedule): while a writer is announced — WRITER_BIT is
+   set by a write() past the inner mutex, by an upgrade in progress, or a write guard is alive — the compare_exchange of
+   try_read / read(), attempted with any expected value that has the bit clear, however stale, fails and changes
+   nothing: no reader gets in. *)
+Theorem C12_blocked_sched : forall (n : nat) (sched : list (nat * RwSched.raction)) (i : nat) (c : N),
+  let g := RwSched.rrun_s n sched in
+  1 <= RwSched.cnt RwSched.fA (RwSched.rg_thr g) -> RwSched.rstep g i (RwSched.RReadCas c) = g.
+Proof. exact RwSched.rw_sched_writer_blocks_readers. Qed.
+
 Print Assumptions C12_writer_announced.
 Print Assumptions C12_reader_blocked.
 Print Assumptions C12_try_read_fails.
 Print Assumptions C12_bit_iff.
+Print Assumptions C12_blocked_sched.
